@@ -3,6 +3,59 @@ package main
 func buildProperties() []Property {
 	return []Property{
 		{
+			ID: "C01", Title: "Answers are those of depth-first, left-to-right SLD resolution, in order",
+			Decides:    "each clause activation runs on a persistent environment (no binding leaks between activations, sibling branches or successive answers: every Env store targets a private node); the interpreter threads its variable frame, continuation and cut barrier unchanged through its own re-entries; every opcode has a handler.",
+			NotDecided: "that the answer sequence equals the reference SLD sequence (clause order, goal order, completeness, termination reporting) - a statement about the dynamic shape of the promise stack for every program.",
+			Rules: []RuleDef{
+				{"R-ENV-IMMUT", 9, ruleEnvImmut},
+				{"R-PARAM-THREAD", 6, ruleParamThread(threadRowsFor("exec"))},
+				{"R-ENUM-TOTAL", 15, ruleEnumTotal},
+				{"R-CUT-PARENT", 1, ruleCutParent},
+			},
+		},
+		{
+			ID: "C03", Title: "Cut removes exactly the clause-level choice points; call/N makes it local",
+			Decides:    "cut-barrier discipline: the barrier field is written only at construction and cleared only by the trampoline; a cut is tagged with the activation's own barrier; each clause alternative gets the promise holding this call's alternatives as barrier; no *Promise can travel into a callee (procedure interface, Cont, VM fields), so every goal entered through call/N, \\+, findall, catch gets a fresh barrier.",
+			NotDecided: "that popUntil prunes exactly the right frames for every dynamic stack; the derived semantics of ->, once, \\+ in bootstrap.pl.",
+			Rules: []RuleDef{
+				{"R-CUT-WRITERS", 4, ruleCutWriters},
+				{"R-CUT-PARENT", 1, ruleCutParent},
+				{"R-CUT-LOCAL", 4, ruleCutLocal},
+				{"R-PARAM-THREAD", 6, ruleParamThread(threadRowsFor("exec"))},
+			},
+		},
+		{
+			ID: "C04", Title: "throw/1 unwinds to the innermost still-executing catch/3, undoing bindings",
+			Decides:    "the ball is instantiated and copied at throw time (throw/1 raises only Exceptions whose term is renamedCopy(ball, env) of its own arguments); the catcher is unified and Recovery called under the environment catch/3 was called with, so all later bindings are undone (with R-ENV-IMMUT); variable sharing inside the ball is kept.",
+			NotDecided: "which catch frame is selected - in particular that a catch/3 whose Goal has exited no longer intercepts (observation O1: it does on this tree; a property of the runtime promise stack).",
+			Rules: []RuleDef{
+				{"R-BALL-COPY", 6, ruleBallCopy},
+				{"R-CATCH-ENV", 3, ruleCatchEnv},
+				{"R-ENV-IMMUT", 9, ruleEnvImmut},
+				{"R-PARAM-THREAD", 4, ruleParamThread(threadRowsFor("renamedCopy"))},
+			},
+		},
+		{
+			ID: "C11", Title: "findall/bagof/setof collect exactly the solutions, as copies, grouped by witness",
+			Decides:    "every collected instance is a renamed copy of the template taken under that solution's environment; after the nested search findall/3 and \\+/1 continue with their own outer environment (no goal binding is left behind, with R-ENV-IMMUT); copies keep variable sharing.",
+			NotDecided: "free-variable computation, witness variance, partition into groups, solution order.",
+			Rules: []RuleDef{
+				{"R-COPY-ON-COLLECT", 1, ruleCopyOnCollect},
+				{"R-OUTER-ENV", 2, ruleOuterEnv},
+				{"R-ENV-IMMUT", 9, ruleEnvImmut},
+				{"R-PARAM-THREAD", 4, ruleParamThread(threadRowsFor("renamedCopy"))},
+			},
+		},
+		{
+			ID: "C13", Title: "Cancelling the context stops any execution promptly; interpreter stays usable",
+			Decides:    "every nested trampoline runs under the caller's context (no fresh Background context around a goal, no captured context inside a thunk); every cycle of the trampoline passes through a non-blocking poll of ctx.Done() and cancellation is returned as ctx.Err().",
+			NotDecided: "the delay bound (Go-level loops between polls are bounded by term size, not by a constant), and that the interpreter stays usable afterwards.",
+			Rules: []RuleDef{
+				{"R-FORCE-CTX", 8, ruleForceCtx},
+				{"R-POLL-IN-LOOP", 3, rulePollInLoop},
+			},
+		},
+		{
 			ID: "C02", Title: "Unification yields a most general unifier, whatever the term representation",
 			Decides:    "a failed unification leaves no binding (environments are persistent: every Env store targets a node private to the writer); unify_with_occurs_check applies the check at every depth and before every bind; atomic terms are compared with a total non-panicking equality; every slice/string encoding of a list reports './2 through the Compound interface.",
 			NotDecided: "most-generality, symmetry, idempotence, and that Arg(n) of the four list encodings denotes the same abstract argument (algebraic laws over all term pairs).",
